@@ -77,6 +77,12 @@ func main() {
 				if o.IsCover {
 					ok = o.Result == "sat"
 				}
+				if o.Kind == "cover.soft" {
+					if !ok && *verbose {
+						fmt.Printf("   note: %s is unreachable under the contracts (%s)\n", o.Name, o.Pos)
+					}
+					continue
+				}
 				mark := "ok  "
 				if !ok {
 					mark = "FAIL"
